@@ -104,7 +104,10 @@ Definition exc_of (d : nat) (p : panicval) : option (value * site) :=
 (* --- frames ---------------------------------------------------------------------------------- *)
 
 Inductive catch_act := CSwallow | CRethrow | CThrowNew.
-Record jsframe := mkJS { j_catch : option catch_act; j_finally : bool }.
+(* what a finally block does after logging: nothing / throw a fresh object / return (both override the
+   completion that was pending: leaveFinally is never reached, the try frame's saved exception is dropped) *)
+Inductive fin_act := FinQuiet | FinThrow | FinReturn.
+Record jsframe := mkJS { j_catch : option catch_act; j_finally : bool; j_finact : fin_act }.
 
 Inductive entry := EnFC | EnRefl | EnReflErr | EnCtor | EnProxy | EnDyn | EnGetter.
 Inductive callback := CbCallable | CbCtor | CbRunString | CbExportErr | CbExportNoErr | CbGet | CbTryGet | CbForOf.
@@ -119,8 +122,9 @@ Inductive event :=
 | EvReject (d : nat) (v : value).     (* the rejection handler of the promise job started at depth d received v *)
 
 (* identities of objects created while unwinding *)
-Definition fresh_thrown (d : nat) : N := N.of_nat (2 * d + 1).
-Definition fresh_goerr (d : nat) : N := N.of_nat (2 * d + 2).
+Definition fresh_thrown (d : nat) : N := N.of_nat (3 * d + 1).
+Definition fresh_goerr (d : nat) : N := N.of_nat (3 * d + 2).
+Definition fresh_fin (d : nat) : N := N.of_nat (3 * d + 3).
 
 (* what the Go code that called into JS receives *)
 Inductive gores := GNormal | GErrRes (e : gerr) | GPanic (p : panicval).
@@ -188,18 +192,28 @@ Definition fin_ev (d : nat) (j : jsframe) : list event := if j_finally j then [E
 
 (* a JS frame: handleThrow finds this frame's try frame (catch first, else finally); an exception that
    is not a JS exception pops every JS try frame silently *)
+(* the completion after the finally block of frame d ran with completion s pending *)
+Definition apply_fin (d : nat) (j : jsframe) (s : signal) : signal :=
+  if j_finally j then
+    match j_finact j with
+    | FinQuiet => s
+    | FinThrow => SPanic (PVExc (VObj 0 (fresh_fin d)) (SAt d))
+    | FinReturn => SNormal
+    end
+  else s.
+
 Definition step_js (d : nat) (j : jsframe) (s : signal) : signal * list event :=
   match s with
-  | SNormal => (SNormal, fin_ev d j)
+  | SNormal => (apply_fin d j SNormal, fin_ev d j)
   | SPanic p =>
     match exc_of d p with
     | None => (SPanic p, [])
     | Some (v, st) =>
       match j_catch j with
-      | Some CSwallow => (SNormal, EvCatch d v :: fin_ev d j)
-      | Some CRethrow => (SPanic (PVExc v (stack_of d v)), EvCatch d v :: fin_ev d j)
-      | Some CThrowNew => (SPanic (PVExc (VObj 0 (fresh_thrown d)) (SAt d)), EvCatch d v :: fin_ev d j)
-      | None => (SPanic (PVExc v st), fin_ev d j)
+      | Some CSwallow => (apply_fin d j SNormal, EvCatch d v :: fin_ev d j)
+      | Some CRethrow => (apply_fin d j (SPanic (PVExc v (stack_of d v))), EvCatch d v :: fin_ev d j)
+      | Some CThrowNew => (apply_fin d j (SPanic (PVExc (VObj 0 (fresh_thrown d)) (SAt d))), EvCatch d v :: fin_ev d j)
+      | None => (apply_fin d j (SPanic (PVExc v st)), fin_ev d j)
       end
     end
   end.
@@ -310,16 +324,19 @@ Definition host_is (t : N) (g : gores) : bool :=
 Definition transparent_handler (h : handler) : bool :=
   match h with HPanicErr | HPanicValue | HReturnErr => true | _ => false end.
 
-(* frames that neither replace the exception (catch → throw new / swallow) nor wrap it in a Go error *)
+(* frames that neither replace the exception (catch → throw new / swallow, finally → throw / return) nor wrap it in a Go error *)
+Definition quiet_fin (j : jsframe) : bool :=
+  negb (j_finally j) || match j_finact j with FinQuiet => true | _ => false end.
+
 Definition transparent (f : frame) : bool :=
   match f with
-  | FJS j => match j_catch j with Some CSwallow | Some CThrowNew => false | _ => true end
+  | FJS j => match j_catch j with Some CSwallow | Some CThrowNew => false | _ => true end && quiet_fin j
   | FNat n => transparent_handler (n_h n)
   end.
 
 Definition no_swallow (f : frame) : bool :=
   match f with
-  | FJS j => match j_catch j with Some CSwallow | Some CThrowNew => false | _ => true end
+  | FJS j => match j_catch j with Some CSwallow | Some CThrowNew => false | _ => true end && quiet_fin j
   | FNat _ => true
   end.
 
